@@ -8,8 +8,8 @@ CLAIMED={
  "C03":("exploration","end-to-end UDP oracle with unique payload ids: target-side arrival iff valid under the right key, client-side decode of every reply (association key, fresh salt, true sender address incl. zoned link-local), metrics-recorder attribution; one handler serving two listeners","4.C03"),
  "C04":("exploration","offline checker over the recorded datagram log with association epochs: one outbound socket per client and epoch, injectivity, unsolicited datagrams delivered to the owner only; slow-reaper fault injection through hook H2; process-level phase on the real binary","4.C04"),
  "C05":("exploration","reference-classifier sweep of the destination validator (exhaustive over IPv4 in the thorough tier), sinks for every forbidden class in an all-addresses-local lab, outbound write log (hook H2) and strace syscall monitor on the real binary (also with --verbose); race reports inside the policy code count as violations","4.C05"),
- "C06":("exploration","client-socket and server-conn-wrapper monitors for bytes written, close kind and close time against the handshake deadline, incl. probe history amid legitimate clients and a service without keys","4.C06"),
- "C07":("exploration","black-box replay-history spec oracle over long Add/Resize histories, porcupine linearizability checking of concurrent histories, exactly-one-winner end to end (in-process rigs and the real binary across reloads, services and the legacy format)","4.C07"),
+ "C06":("exploration","client-socket and server-conn-wrapper monitors for bytes written, close kind and close time against the handshake deadline, incl. every address-type value next to the known ones, probe history amid legitimate clients and a service without keys","4.C06"),
+ "C07":("exploration","black-box replay-history spec oracle over long Add/Resize histories (incl. the history switched off and on again mid-stream), porcupine linearizability checking of concurrent histories, exactly-one-winner end to end (in-process rigs and the real binary across reloads, services and the legacy format)","4.C07"),
  "C08":("exploration","collection of server salts from real response streams (freshness set, independent decode) and reflection of every recorded server output back as client input, cache on/off; bulk concurrent issuance on one key's generator (pairwise distinct)","4.C08"),
  "C09":("exploration","full (listener, key) matrix against the real binary per PRNG configuration with /metrics attribution deltas; concurrent authentications; race reports on the key list count as violations","4.C09"),
  "C10":("fault_enumeration","reload histories with enumerated fault points against the real binary; /proc socket table, sampled authentication matrix, goroutine creation sites and fd count vs a fresh start; rotated ids, > 1 MiB files, updates in quick succession, connections held open across the history","4.C10"),
@@ -19,7 +19,7 @@ CLAIMED={
  "C14":("exploration","trace checker over the H2 event log of the real outbound sockets (deadlines, writes, reads, closes) combined with client send stamps and the metrics recorder; shutdown and leak audits; H2 injections (slow reaper, slow removal report, failing deadline call); the real binary with -udptimeout under both configuration formats watched through /proc","4.C14"),
  "C15":("exploration","per-connection call-sequence oracle on a recording TCPConnMetrics tee'd into the real collectors, byte counters vs independent socket-side counts, quiescent audit of gathered families; crowds of 280-420 open connections","4.C15"),
  "C16":("exploration","per-datagram report sequence vs the send log, reply reports vs datagrams received, conservation vs target sockets, gathered families vs recorder sums; write-error injection through hook H2; reads on the association socket (H2) vs reports; largest datagrams over IPv4 and IPv6","4.C16"),
- "C17":("exploration","interval-union reference account under a controlled clock (hook H1), bounds from clock readings under a ticking clock, real handlers feeding real collectors (incl. listener shutdown with an association open)","4.C17"),
+ "C17":("exploration","interval-union reference account under a controlled clock (hook H1) incl. up to 33000 simultaneous tunnels of one client, bounds from clock readings under a ticking clock, real handlers feeding real collectors (incl. listener shutdown with an association open)","4.C17"),
  "C18":("exploration","crash/panic monitors (child liveness with pre-logged inputs, capturing slog handler, canary exchanges) under hostile TCP/UDP inputs, then goroutine-profile and fd-table leak audits and shutdown-ordering check; accept-failure bursts, writes straddling an association's expiry (H2)","4.C18"),
  "C19":("exploration","Go race detector over the concurrent rigs of every shared component and the -race server binary under reload storms; linearizability (porcupine) and lost-update audits ride along","4.C19"),
  "C20":("exploration","class-based reference oracle for location labels incl. database call log, exposition scan for client address/port renderings, location labels of every family against the clients' classes","4.C20"),
